@@ -160,6 +160,22 @@ Strip(e) == LET RECURSIVE S(_)
             IN S(e)
 ValueLess(e) == Strip(e).op \in {"void", "cut", "and", "not", "eof", "fail", "skipgroup"}
 Encloser(e) == Strip(e).op \in {"opt", "star", "plus", "join", "and", "not", "skipgroup", "skipto"}
+\* ---- KF-C01-1: a called rule whose value is a list built by an override (@+:e, or @:e with e of several items) - the engine keeps that
+\* list open and splices it into the caller's sequence; the documented value (one element of its caller) is not what the machine gives
+RECURSIVE SimpleOperand(_)
+SimpleOperand(e) == LET x == Strip(e) IN
+                    \/ x.op \in {"tok", "pat", "opat", "dot", "meta", "const", "oconst", "call", "star", "plus", "join", "emptyclosure"}
+                    \/ (x.op = "alt" /\ \A i \in 1..Len(x.es) : SimpleOperand(x.es[i]))
+RECURSIVE BuildsList(_)
+BuildsList(e) == CASE e.op = "ovrlist" -> TRUE
+                   [] e.op = "ovr" -> ~SimpleOperand(e.e) \/ BuildsList(e.e)
+                   [] e.op \in Nary -> \E i \in 1..Len(e.es) : BuildsList(e.es[i])
+                   [] e.op = "join" -> BuildsList(e.e) \/ BuildsList(e.sep)
+                   [] e.op \in Unary -> BuildsList(e.e)
+                   [] OTHER -> FALSE
+CalledRules == UNION {AllCalls(G.rules[i].exp) : i \in 1..Len(G.rules)}
+OverrideListSpliced == \E r \in CalledRules : HasRule(r) /\ BuildsList(RuleExp(r))
+
 RECURSIVE OddReturn(_)
 OddReturn(e) == CASE e.op \in {"void", "and"} -> TRUE               \* the interpreter returns () / the inner value, the AST gets nothing
                   [] e.op \in Nary -> \E i \in 1..Len(e.es) : OddReturn(e.es[i])
